@@ -210,7 +210,7 @@ Msg(s, p0, cfg) ==
                   codes |-> codes \cup {400} \cup (IF teEmptyElems THEN {501} ELSE {}) \cup (IF (e + 4 - p0) >= cfg.maxh THEN {431} ELSE {}),
                   next |-> next, empty |-> FALSE,
                   method |-> rl.method, target |-> rl.target, v11 |-> rl.v11, nfields |-> Len(good), body |-> body,
-                  mustClose |-> close, mayClose |-> TRUE,
+                  mustClose |-> close, mayClose |-> TRUE, verFree |-> ~rl.v11 /\ ~rl.v10,
                   fields |-> [i \in 1..Len(good) |-> [n |-> good[i].name, v |-> good[i].value]],
                   expect |-> rl.v11 /\ \E i \in 1..Len(good) : NameIs(good[i], EXPECT) /\ LowerSeq(good[i].value) = CONTINUE100,
                   hadTE |-> Len(tes) > 0]
